@@ -529,3 +529,54 @@ def rf27(run, units=('mir', 'c2mir')):
                                 run.violation(rule, g, '%s of %s' % (act['n'], elname), '%s stores %s into %s, which frees its elements, but '
                                               'the element is not allocated in this function' % (g.name, elname, tab[-30:]), line=d['l'])
     return n
+
+
+# ---------------------------------------------------------------------------------------------
+# RF3b: container growth is never an operand that a short circuit can skip
+# ---------------------------------------------------------------------------------------------
+
+GROWTH = ('expand', 'tailor', 'push', 'push_arr')
+
+
+def rf3b(run, units=('mir', 'gen', 'c2mir')):
+    rule = 'RF3b'
+    run.rule(rule, 'no call that (re)sizes a VARR (expand, tailor, push, push_arr) is the right operand of && / || or an arm of ?: whose '
+                   'value is then assumed by unconditional code: the short circuit would skip the growth and the following '
+                   'accesses use the old capacity; every VARR_EXPAND call site is evaluated unconditionally within its statement')
+    n = 0
+    for u in units:
+        tu = run.tu(u)
+        for f in tu.func_list:
+            if f.body is None:
+                continue
+            for x in f.walk():
+                if x['k'] != 'CallExpr':
+                    continue
+                c = x.get('callee') or ''
+                if not (c.startswith('VARR_') and any(c.endswith(g) for g in GROWTH)):
+                    continue
+                if f.name.startswith('VARR_'):
+                    continue
+                n += 1
+                # climb to the enclosing full expression
+                node, skipped = x, None
+                for a in f.ancestors(x):
+                    if a['k'] == 'BinaryOperator' and a.get('op') in ('&&', '||') and any(y is node for y in F.walk(a['c'][1])) and not any(y is node for y in F.walk(a['c'][0])):
+                        # growth of one container guarded by the growth of another one is the defect shape; a guard that is a plain
+                        # test (e.g. `p != NULL && VARR_PUSH`) is the author's explicit condition
+                        lhs_grows = any(y['k'] == 'CallExpr' and (y.get('callee') or '').startswith('VARR_')
+                                        and any((y.get('callee') or '').endswith(g) for g in GROWTH) for y in F.walk(a['c'][0]))
+                        if lhs_grows:
+                            skipped = a
+                            break
+                    if a['k'] in ('CompoundStmt', 'IfStmt', 'ForStmt', 'WhileStmt', 'DoStmt', 'ReturnStmt', 'DeclStmt'):
+                        break
+                ok = skipped is None
+                run.ob(rule, (u, f.name, x['l']), ok)
+                if not ok:
+                    run.violation(rule, f, 'growth %s under a short circuit' % F.src(x)[:60],
+                                  '%s is the right operand of `%s` whose left operand also grows a container: when the left one grows, this '
+                                  'one is skipped and the code that follows indexes it with the new length (heap overflow)'
+                                  % (F.src(x)[:70], skipped['op']), line=x['l'])
+        run.functions_analysed.add((u, '*'))
+    return n
